@@ -126,7 +126,7 @@ def run(ctx):
     rr = gen_rr_cases(ctx)
     ll = gen_ll_cases(ctx)
     rnd = [{"Kind": "rnd", "Nodes": list(range(n)), "Calls": 400 * n} for n in (1, 2, 3, 5, 8)]
-    conc = [{"Kind": "rrconc", "Nodes": list(range(n)), "G": g, "Calls": n * (1500 if ctx.thorough else 300)} for (n, g) in ((3, 8), (5, 4), (7, 16))]
+    conc = [{"Kind": "rrconc", "Nodes": list(range(n)), "G": g, "Calls": n * (20000 if ctx.thorough else 4000)} for (n, g) in ((3, 8), (5, 4), (7, 16))]
     cases = rr + ll + rnd + conc
     with open(os.path.join(ctx.work, "c22_in.jsonl"), "w") as f:
         for c in cases:
